@@ -202,13 +202,15 @@ MODEL_NOTE = ("CVRPEnv modelled per instance over integer ticks (Rl4co/Env/Cvrp.
               "arithmetic and float32 rounding are outside the model (exact-stream instances make them exact)")
 
 register(Unit("C01", "cvrp", lambda ctx: envcorr.check_feasibility(ctx, AD),
-              drivers=["drv_cvrp"], lean_modules=["Rl4co.Props.C01.Cvrp"],
-              theorems=[Theorem("Rl4co.Cvrp.feasible_of_run", "proved",
+              drivers=["drv_cvrp"], lean_modules=["Rl4co.Props.C01.CvrpParams", "Rl4co.Props.C01.Cvrp"],
+              theorems=[Theorem("Rl4co.Cvrp.params_match", "proved", "the source tokens hard-coded in the CVRP model (depot rule, load reset, checker clamp/tolerance) are what extract.py reads from the current source"),
+                        Theorem("Rl4co.Cvrp.feasible_of_run", "proved",
                                 "every mask-confined finished CVRP episode is Spec-feasible (any n, any demands ≥ 0)")],
               assumptions=[MODEL_NOTE]))
 register(Unit("C02", "cvrp", lambda ctx: envcorr.check_termination(ctx, AD),
-              drivers=["drv_cvrp"], lean_modules=["Rl4co.Props.C02.Cvrp"],
-              theorems=[Theorem("Rl4co.Cvrp.mask_nonempty", "proved", "every state offers an action"),
+              drivers=["drv_cvrp"], lean_modules=["Rl4co.Props.C01.CvrpParams", "Rl4co.Props.C02.Cvrp"],
+              theorems=[Theorem("Rl4co.Cvrp.params_match", "proved", "the source tokens hard-coded in the CVRP model (depot rule, load reset, checker clamp/tolerance) are what extract.py reads from the current source"),
+                        Theorem("Rl4co.Cvrp.mask_nonempty", "proved", "every state offers an action"),
                         Theorem("Rl4co.Cvrp.done_stable", "proved", "done is absorbing under admitted steps"),
                         Theorem("Rl4co.Cvrp.steps_le", "proved", "an unfinished mask-confined run has at most 2n+1 steps")],
               assumptions=[MODEL_NOTE]))
@@ -224,16 +226,24 @@ register(Unit("C04", "cvrp", lambda ctx: envcorr.check_batch_independence(ctx, A
               assumptions=[MODEL_NOTE, "the batched code is compared row-wise against the per-instance model"]))
 if os.path.exists(os.path.join(LEAN_DIR, "Rl4co/Props/C05/Cvrp.lean")):
   register(Unit("C05", "cvrp", lambda ctx: envcorr.check_completeness(ctx, AD),
-              drivers=["drv_cvrp"], lean_modules=["Rl4co.Props.C05.Cvrp"],
-              theorems=[Theorem("Rl4co.Cvrp.run_of_feasible", "proved",
-                                "every canonical Spec-feasible solution is a mask-confined finished run")],
+              drivers=["drv_cvrp"], lean_modules=["Rl4co.Props.C01.CvrpParams", "Rl4co.Props.C05.Cvrp", "Rl4co.Props.C05.CvrpOpt"],
+              theorems=[Theorem("Rl4co.Cvrp.params_match", "proved", "the source tokens hard-coded in the CVRP model (depot rule, load reset, checker clamp/tolerance) are what extract.py reads from the current source"),
+                        Theorem("Rl4co.Cvrp.run_of_feasible", "proved",
+                                "every canonical Spec-feasible solution is a mask-confined finished run"),
+                        Theorem("Rl4co.Cvrp.feasible_canon", "proved",
+                                "removing pointless depot visits keeps a solution feasible (and objective_canon: keeps its objective)"),
+                        Theorem("Rl4co.Cvrp.opt_reachable", "proved",
+                                "rewards of finished mask-confined episodes = negated objectives of ALL feasible solutions"),
+                        Theorem("Rl4co.Cvrp.best_reward_eq_optimum", "proved",
+                                "an optimal feasible solution's value is attained by a finished mask-confined episode and never exceeded")],
               assumptions=[MODEL_NOTE]))
   register(Unit("C05", "cvrp_float", float_fill_probe, drivers=[], lean_modules=[], theorems=[],
                 assumptions=["generic (float32) stream probe of the real CVRP mask at exact capacity fill with the generator's "
                              "non-dyadic normalisation; oracle = exact integer arithmetic; no theorem: float32 is outside the model"]))
 if os.path.exists(os.path.join(LEAN_DIR, "Rl4co/Props/C06/Cvrp.lean")):
   register(Unit("C06", "cvrp", lambda ctx: envcorr.check_checker(ctx, AD),
-              drivers=["drv_cvrp"], lean_modules=["Rl4co.Props.C06.Cvrp"],
-              theorems=[Theorem("Rl4co.Cvrp.check_complete", "proved", "Spec-feasible ⇒ checker accepts"),
+              drivers=["drv_cvrp"], lean_modules=["Rl4co.Props.C01.CvrpParams", "Rl4co.Props.C06.Cvrp"],
+              theorems=[Theorem("Rl4co.Cvrp.params_match", "proved", "the source tokens hard-coded in the CVRP model (depot rule, load reset, checker clamp/tolerance) are what extract.py reads from the current source"),
+                        Theorem("Rl4co.Cvrp.check_complete", "proved", "Spec-feasible ⇒ checker accepts"),
                         Theorem("Rl4co.Cvrp.check_sound", "proved", "checker accepts ⇒ feasible up to the load tolerance (demands ≥ 0)")],
               assumptions=[MODEL_NOTE]))
